@@ -71,6 +71,11 @@ def scan_outputs(d):
     """returns list of (sink, token)"""
     out = []
     d = pathlib.Path(d)
+    # a run whose outputs / scratch space sat directly below a top-level directory: those names are gone by now (moved,
+    # deleted), so the scanner is told what they were
+    known = []
+    if (d / 'toplevel_tag.txt').exists():
+        known = [(d / 'toplevel_tag.txt').read_text().strip(), '/tmp/cell_type_mapper_', '/tmp/file_tracker_']
 
     def walk(sink, obj):
         if isinstance(obj, dict):
@@ -83,6 +88,10 @@ def scan_outputs(d):
         elif isinstance(obj, str):
             for t in leaks_in(obj):
                 out.append((sink, t))
+            for kn in known:
+                for t in obj.split():
+                    if kn in t and (sink, t) not in out:
+                        out.append((sink, t))
 
     jp = d / 'out' / 'res.json'
     if jp.exists():
@@ -120,7 +129,10 @@ def replay_alphabet(ctx, words):
     assert len(str(longfile)) > 255
     refs = {'file': str(real), 'child': str(real.parent / 'not_there.h5'),
             'deep': str(real.parent / 'missing_1' / 'missing_2' / 'not_there.h5'), 'long': str(longfile),
-            'package': str(pkg), 'nowhere': '/zz_no_such_dir_/qq/file.h5'}
+            'package': str(pkg), 'nowhere': '/zz_no_such_dir_/qq/file.h5',
+            'odd_file': str(real.parent) + '//data_file.h5', 'odd_child': str(d) + '/./some.dir//not_there.h5',
+            'toplevel': f'/tmp/zz_not_there_{os.getpid()}.h5'}
+    assert os.path.isdir('/tmp') and not os.path.exists(refs['toplevel'])
     shapes = {'bare': ['{p}'], 'quoted': ["'{p}'", '"{p}"'], 'trailing': ['{p},', '{p}:', "'{p}',", '{p})'],
               'leading': ['({p}', '[{p}', '<{p}'], 'keyeq': ['key={p}', 'path={p}'],
               'repr': ["PosixPath('{p}')"], 'colon': ['name:{p}', 'file:{p}']}
@@ -189,13 +201,14 @@ def run(ctx):
         classes = ['ok', 'missing_csv_dir', 'missing_query', 'corrupt_query', 'negative_raw', 'root_unusable',
                    'unknown_marker', 'other_taxonomy', 'fault_kill', 'fault_raise', 'ok_csc',
                    'long_csv_name', 'stats_without_sum', 'obsm_taken', 'negative_raw_nolog', 'fault_raise_nolog',
-                   'fault_term']
+                   'fault_term', 'odd_spelling', 'odd_spelling_fault', 'toplevel', 'toplevel_missing_query', 'toplevel_fault']
         jobs, meta = [], []
         for li, lay in enumerate(layouts):
             for ci, cls in enumerate(classes):
                 if quick and (li + ci) % 2 == 1 and cls not in ('ok', 'fault_raise', 'missing_csv_dir', 'long_csv_name',
                                                                 'stats_without_sum', 'obsm_taken', 'negative_raw_nolog',
-                                                                'fault_raise_nolog'):
+                                                                'fault_raise_nolog', 'odd_spelling', 'toplevel',
+                                                                'toplevel_missing_query'):
                     continue
                 s = None
                 while s is None:
@@ -214,22 +227,24 @@ def run(ctx):
                 elif cls == 'other_taxonomy':
                     s['markers'] = {'0/0': s['markers']['0/0'], '7/7': [1, 2]}
                     s['markers'].pop('1/1', None)
-                elif cls in ('fault_kill', 'fault_raise', 'fault_raise_nolog', 'fault_term'):
+                elif cls in ('fault_kill', 'fault_raise', 'fault_raise_nolog', 'fault_term', 'odd_spelling_fault', 'toplevel_fault'):
                     pp = root / 'plan.json'
-                    json.dump(pooltrace.fault_plan(s, 2, 'mid', cls.split('_')[1]), open(pp, 'w'))
+                    json.dump(pooltrace.fault_plan(s, 2, 'mid', 'raise' if cls.endswith('_fault') else cls.split('_')[1]),
+                              open(pp, 'w'))
                     plan = str(pp)
                 elif cls == 'ok_csc':
                     s['cfg']['enc'] = 'csc'
                 elif cls == 'missing_csv_dir':
                     pass      # handled in the runner: CSV path two missing levels below the output dir
                 jobs.append({'job': {'scn': s, 'scheme': 'structural', 'plan': plan, 'mode': 'cli', 'keep': True,
-                                     'workdir': str(root), 'damage': 'no_log_file' if cls.endswith('_nolog') else cls}})
+                                     'workdir': str(root), 'damage': 'no_log_file' if cls.endswith('_nolog') else
+                                     cls[:-6] if cls.endswith('_fault') else cls}})
                 meta.append((cls, lay))
         outs = sub.run_jobs(ctx, jobs)
         nleak = 0
         for (cls, lay), o in zip(meta, outs):
             ctx.count({'cls': cls, 'layout': lay}, nontrivial=True)
-            expect_ok = cls in ('ok', 'ok_csc')
+            expect_ok = cls in ('ok', 'ok_csc', 'odd_spelling', 'toplevel')
             if o['ok'] != expect_ok and cls not in ('other_taxonomy',):
                 # not C20's business whether it fails, but record it
                 ctx.part('c2s', **{f'unexpected_outcome_{cls}': 1})
